@@ -20,3 +20,4 @@ INVARIANTS
   C04_Untouched
   C04_Conforming
   C04_NonNegative
+  Compose
